@@ -183,10 +183,13 @@ PredConds(c, idx) == SelPats(Source, c.byP, idx)
 TestIdx(c, F, pidx) == IF c.cv = "none" THEN F.teI ELSE Concat(pidx, F.teI)
 TrainIdx(c, F, pidx) == Concat(pidx, F.trI)
 
-NoTheta == [kind |-> "none", rows |-> <<>>, conds |-> <<>>, pidx |-> <<>>, fconds |-> <<>>]
-Supplied == [kind |-> "supplied", rows |-> <<>>, conds |-> <<>>, pidx |-> <<>>, fconds |-> <<>>]
+\* A fitter call carries, besides the training object and the index list, the comparison method the
+\* parameters are optimised for (rc.method: the method the routine was called with; the symbol "M" in the
+\* model runs, the actual name in recorded traces) and the descriptor the index list refers to.
+NoTheta == [kind |-> "none", rows |-> <<>>, conds |-> <<>>, pidx |-> <<>>, fconds |-> <<>>, meth |-> "", desc |-> ""]
+Supplied == [kind |-> "supplied", rows |-> <<>>, conds |-> <<>>, pidx |-> <<>>, fconds |-> <<>>, meth |-> "", desc |-> ""]
 Fitted(c, F, pidx) == [kind |-> "fit", rows |-> F.trR, conds |-> F.trP, pidx |-> TrainIdx(c, F, pidx),
-                       fconds |-> PredConds(c, TrainIdx(c, F, pidx))]
+                       fconds |-> PredConds(c, TrainIdx(c, F, pidx)), meth |-> c.method, desc |-> c.byP]
 NoPred == [model |-> 0, theta |-> NoTheta, conds |-> <<>>]
 NaNCell == [nan |-> 1, pred |-> NoPred, data |-> [rows |-> <<>>, conds |-> <<>>]]
 IsNaN(cell) == cell.nan = 1
@@ -378,6 +381,9 @@ FitBeforeUse ==
        \A v \in 1..NVar(rc) : \A f \in DOMAIN sets[v] : \A j \in 1..rc.nM :
           ~FoldNaN(rc, sets[v][f]) => theta[v][f][j].kind \in {"supplied", "fit"}
   /\ \A k \in Cells : ev[k].pred.theta.kind = (IF rc.cv = "none" THEN "supplied" ELSE "fit")
+  \* fitted for the comparison method of the routine, index list in terms of the routine's pattern descriptor
+  /\ \A k \in Cells : ev[k].pred.theta.kind = "fit" =>
+        ev[k].pred.theta.meth = rc.method /\ ev[k].pred.theta.desc = rc.byP
 SplitP(c) == (c.cv \in {"kfold", "kfoldpat"} /\ c.kP > 1) \/ (c.cv = "random" /\ c.kP > 0)
 SplitR(c) == (c.cv = "kfold" /\ c.kR > 1) \/ (c.cv = "random" /\ c.kR > 0)
 GroupsOfConds(c, s) == {PDesc(Source, c.byP)[s[p]] : p \in DOMAIN s}
